@@ -805,6 +805,8 @@ func (ep *endpoint) handle(w http.ResponseWriter, req *http.Request) {
 // has been counted by then.
 func (ep *endpoint) probe() bool {
 	ep.mu.Lock()
+	ep.probeSeen = make(chan struct{}) // re-armed for every probe (endpoints shared by several calls)
+	seen := ep.probeSeen
 	c, err := net.DialTimeout("tcp", ep.tcp.Addr().String(), 5*time.Second)
 	if err != nil {
 		ep.mu.Unlock()
@@ -814,7 +816,7 @@ func (ep *endpoint) probe() bool {
 	ep.mu.Unlock()
 	defer c.Close()
 	select {
-	case <-ep.probeSeen:
+	case <-seen:
 		return true
 	case <-time.After(10 * time.Second):
 		return false
@@ -999,17 +1001,31 @@ func (w *world) history() []string {
 
 // exec makes one call against an endpoint of its own and classifies what was
 // observed.  snap=false in concurrent sets (the set takes the snapshot).
-func (w *world) exec(spec callSpec, snap bool) *callResult {
+func (w *world) exec(spec callSpec, snap bool) *callResult { return w.execOn(spec, snap, nil) }
+
+// execOn is exec against an endpoint shared with earlier calls of the same
+// process (shared == nil: an endpoint of its own); the server-side counts are
+// then the differences over this call.
+func (w *world) execOn(spec callSpec, snap bool, shared *endpoint) *callResult {
 	r := w.r
 	id := w.ids[spec.Ident]
 	res := &callResult{Spec: spec, Exp: oracle(id, spec.FP)}
-	ep, err := startEndpoint(id, spec.Kind, spec.H2, spec.TLS13)
-	if err != nil {
-		res.Observed = "no-endpoint"
-		r.Inconclusive("cannot start an endpoint: " + err.Error())
-		return res
+	ep := shared
+	var base [7]int
+	if ep == nil {
+		var err error
+		ep, err = startEndpoint(id, spec.Kind, spec.H2, spec.TLS13)
+		if err != nil {
+			res.Observed = "no-endpoint"
+			r.Inconclusive("cannot start an endpoint: " + err.Error())
+			return res
+		}
+		defer ep.close()
+	} else {
+		ep.mu.Lock()
+		base = [7]int{ep.accepts, ep.clientHellos, ep.handshakes, ep.appByteConns, ep.appBytes, ep.handlerRuns, ep.echoed}
+		ep.mu.Unlock()
 	}
-	defer ep.close()
 	var before map[string]string
 	if snap {
 		before = takeSnap()
@@ -1061,13 +1077,18 @@ func (w *world) exec(spec callSpec, snap bool) *callResult {
 			r.Inconclusive("probe connection to an endpoint was not accepted")
 			res.Watchdog = true
 		}
-		if idle = ep.waitIdle(5 * time.Second); !idle {
+		idleWait := 5 * time.Second
+		if shared != nil {
+			// earlier accepted calls may legitimately have left a pooled connection open
+			idleWait = 300 * time.Millisecond
+		}
+		if idle = ep.waitIdle(idleWait); !idle {
 			r.Count("server_conns_still_open_after_refusal", 1)
 		}
 	}
 	ep.mu.Lock()
-	res.Accepts, res.ClientHellos, res.Handshakes = ep.accepts, ep.clientHellos, ep.handshakes
-	res.AppByteConns, res.AppBytes, res.HandlerRuns, res.Echoed = ep.appByteConns, ep.appBytes, ep.handlerRuns, ep.echoed
+	res.Accepts, res.ClientHellos, res.Handshakes = ep.accepts-base[0], ep.clientHellos-base[1], ep.handshakes-base[2]
+	res.AppByteConns, res.AppBytes, res.HandlerRuns, res.Echoed = ep.appByteConns-base[3], ep.appBytes-base[4], ep.handlerRuns-base[5], ep.echoed-base[6]
 	res.ReqLine = ep.reqLine
 	res.Events = append([]string(nil), ep.events...)
 	ep.mu.Unlock()
@@ -1354,6 +1375,65 @@ func (w *world) runSeq(engine string, index int, specs []callSpec, sample bool) 
 	}
 }
 
+// runSame: several calls of one process against ONE server (same address,
+// same key), so that anything a connection may leave behind for the next one
+// to that server - a TLS session to resume, a pooled connection - is in play:
+// right pin then wrong pin, wrong then right, malformed and un-pinned in between.
+func (w *world) runSame(index int, sample bool) {
+	rng := w.r.Rng("same", index)
+	id := w.self[rng.IntN(len(w.self))]
+	kind := []string{"raw", "https"}[rng.IntN(2)]
+	h2, tls13 := rng.IntN(2) == 0, rng.IntN(3) != 0
+	ep, err := startEndpoint(id, kind, h2, tls13)
+	if err != nil {
+		w.r.Inconclusive("cannot start an endpoint: " + err.Error())
+		return
+	}
+	defer ep.close()
+	patterns := [][]string{
+		{"right", "wrong"}, {"right", "wrong", "right"}, {"right", "right", "wrong"}, {"wrong", "right", "wrong"},
+		{"right", "unpinned"}, {"right", "malformed", "wrong"}, {"right", "wrong", "wrong", "unpinned", "right"},
+	}
+	pat := patterns[index%len(patterns)]
+	var results []*callResult
+	var specs []callSpec
+	var sig []string
+	for _, intent := range pat {
+		var class string
+		switch intent {
+		case "right":
+			class = []string{"exact", "prefixed"}[rng.IntN(2)]
+		case "wrong":
+			class = spellWrong[rng.IntN(len(spellWrong))]
+		case "malformed":
+			class = spellMalformed[rng.IntN(len(spellMalformed))]
+		default:
+			class = "unpinned"
+		}
+		spec, ok := w.mkSpec(id, intent, class, rng)
+		if !ok {
+			continue
+		}
+		spec.Kind, spec.H2, spec.TLS13 = kind, h2, tls13
+		specs = append(specs, spec)
+		res := w.execOn(spec, true, ep)
+		res.Key, res.What = w.judge(res)
+		if res.Key != "" {
+			res.Key += ":same-server-sequence"
+		}
+		results = append(results, res)
+		sig = append(sig, shape(spec, res.Exp))
+		w.r.Distinct("call|" + shape(spec, res.Exp))
+		w.report("same", index, res, map[string]any{"position_in_sequence": len(results) - 1, "sequence": brief(specs), "same_server": true})
+		w.r.Count("same_server_calls", 1)
+	}
+	w.r.Eval(1)
+	w.r.Distinct("same|" + strings.Join(sig, ","))
+	if sample {
+		w.r.Sample("same", map[string]any{"index": index, "calls": sampleOf(results)})
+	}
+}
+
 func brief(specs []callSpec) []string {
 	var out []string
 	for _, s := range specs {
@@ -1558,6 +1638,9 @@ func Child(args []string) int {
 		case "conc":
 			w.runConc("conc", i, w.genSet("conc", i, 2, 8), i < 2)
 			r.Count("concurrent_sets", 1)
+		case "same":
+			w.runSame(i, i < 2)
+			r.Count("same_server_sequences", 1)
 		case "ca":
 			w.caScript(i)
 			w.observations(i)
@@ -1654,6 +1737,7 @@ func Run(r *mon.Run) {
 	add("ca", r.N(1, 8), 1)
 	add("conc", r.N(40, 1000), 5)
 	add("seq", r.N(80, 3000), 10)
+	add("same", r.N(56, 1400), 7)
 	add("single", nSelf, 1)
 	var died atomic.Int64
 	mon.Parallel(len(batches), runtime.NumCPU(), func(i int) {
@@ -1692,6 +1776,7 @@ func Run(r *mon.Run) {
 	r.Floor("snapshot_checks", int64(r.N(500, 12000)))
 	r.Floor("probes", int64(r.N(300, 8000)))
 	r.Floor("sequences", int64(r.N(80, 3000)))
+	r.Floor("same_server_sequences", int64(r.N(56, 1400)))
 	r.Floor("concurrent_sets", int64(r.N(40, 1000)))
 	r.Floor("single_keys", int64(nSelf))
 	r.Floor("ca_child_calls", 25)
